@@ -12,6 +12,14 @@ def wrap(value):
     return Wrapped(value)
 
 
+class Wrapped2(Wrapped):
+    """a second, distinguishable wrapping section datatype"""
+
+
+def wrap2(value):
+    return Wrapped2(value)
+
+
 def picky(value):
     """section datatype that rejects sections whose attribute `ka` is the string 'bad'"""
     if getattr(value, 'ka', None) == 'bad':
